@@ -356,12 +356,23 @@ class Specs(object):
             src = '%s:%d' % (path, n)
             m = re.match(r'([a-z]+)(\[[A-Za-z0-9, ]+\])?\s*(.*)$', s)
             kw, tag, rest = m.group(1), m.group(2), m.group(3).strip()
+            if ' -- ' in rest and kw in ('requires', 'ensures', 'invariant', 'assert', 'decreases', 'modifies', 'writes', 'use'):
+                head_ = rest.split(' -- ', 1)[0]
+                if head_.count('"') % 2 == 0:
+                    rest = head_.strip()          # trailing comment
             props = set(x.strip() for x in tag[1:-1].split(',')) if tag else None
             if kw == 'package':
                 pkg = rest
             elif kw == 'func':
                 name = rest.split()[0]
-                full = qualify(pkg, name)
+                mc_ = re.match(r'^(\S+)\s+closure\s+@"(.*)"\s*$', rest)
+                if mc_:
+                    # a function literal inside <name>, identified by a piece of its source text (the compiler's
+                    # ordinal names $1, $2.. would shift whenever another literal is added)
+                    full = qualify(pkg, mc_.group(1)) + '$@' + mc_.group(2)
+                    rest = name
+                else:
+                    full = qualify(pkg, name)
                 cur = self.funcs.get(full)
                 if cur is None:
                     cur = FuncSpec(full, src)
